@@ -265,6 +265,22 @@ def r69(ctx, fx):
                     "(directly or through others) recurses until the stack overflows", "%s:%s" % (et.file, arm.get("ln")))
     elif not emits or any(e.get("ln", 0) < guard.get("ln", 0) for e in emits):
         ctx.finding(rid, key, "imported tokens are emitted before the cycle check", "%s:%s" % (et.file, arm.get("ln")))
+    # what is looked for on the stack is what is put there: the membership test and the push name the same value
+    key3 = "emit_token|Import|same-path"
+    ctx.inst(rid, key3)
+    if guard is not None:
+        tested = set()
+        for x in lib.hwalk(guard["cond"]):
+            if x.get("k") == "mcall" and x.get("name") == "contains" and "import_stack" in repr(lib.hdesc(x["recv"])):
+                tested |= {lib.hpath(y) for y in lib.hwalk(x["args"][0]) if y.get("k") == "path" and (y.get("res") or {}).get("dk") == "Local"}
+        pushed = set()
+        for x in lib.hwalk(arm["body"]):
+            if x.get("k") == "mcall" and x.get("name") == "push" and lib.hdesc(x["recv"])[:2] == ("f", "import_stack"):
+                pushed |= {lib.hpath(y) for y in lib.hwalk(x["args"][0]) if y.get("k") == "path" and (y.get("res") or {}).get("dk") == "Local"}
+        if tested and pushed and not (tested & pushed):
+            ctx.finding(rid, key3, "the cycle check looks for `%s` on the import stack, but what is pushed there is `%s`: when the two differ (a path spelled with `..` "
+                        "against its normalised form) a cycle is never found and the expansion recurses until the stack overflows" % (
+                            "/".join(sorted(t for t in tested if t)), "/".join(sorted(t for t in pushed if t))), "%s:%s" % (et.file, guard.get("ln")))
     # push / pop pairing around the with_scope call: result bound, pop, then `?`
     key2 = "emit_token|Import|stack-balanced"
     ctx.inst(rid, key2)
@@ -570,6 +586,34 @@ def r610(ctx, fx, scope):
     ctx.floor(rid, 300, "functions scanned")
 
 
+def r612(ctx, fx):
+    from . import grammar
+    rid = ctx.rule("R6.12", "nom's tag_no_case compares character by character (through to_lowercase) and then cuts the input at the byte length of the tag: a "
+                   "character that is longer than the ASCII letter it lowercases to — U+212A KELVIN SIGN and `k` — is cut in two and the parser panics on a file "
+                   "that merely contains it. Every parser function whose grammar has a case-insensitive tag with a `k` tests `is_char_boundary` first")
+    n = 0
+    sites = 0
+    for f in sorted(fx.all_fns("mos_core"), key=lambda f: f.path):
+        if "::tests::" in f.path or not f.path.startswith("mos_core::parser::") or f.kind == "closure" or not f.d.get("hir"):
+            continue
+        n += 1
+        gs = [grammar.fn_grammar(f)] + grammar.applied_parsers(f)
+        ks = sorted({str(t[1]) for g in gs for t in grammar.walk(g) if t[0] == "tag" and len(t) > 2 and t[2] is True and "k" in str(t[1]).lower()})
+        if not ks:
+            continue
+        sites += 1
+        guarded = any(x.get("k") == "mcall" and x.get("name") == "is_char_boundary" for x in lib.hwalk(f.hir["body"]))
+        key = "%s|kelvin" % f.path
+        ctx.inst(rid, key, sample={"fn": f.path, "tags_with_k": ks, "boundary_test": guarded})
+        if not guarded:
+            ctx.finding(rid, key, "%s matches %s case-insensitively without a char-boundary test: the text `%s` followed by U+212A (K) instead of `k` makes nom slice "
+                        "inside that character — parsing panics instead of reporting a diagnostic" % (f.path.rsplit("::", 1)[-1], "/".join("`%s`" % k for k in ks),
+                                                                                                   ks[0][:-1] if ks[0].lower().endswith("k") else ks[0]), f.where)
+    ctx.inst(rid, "scan", sample={"parser_functions": n, "with_a_k_tag": sites})
+    if n < 60 or sites < 1:
+        ctx.fail_closed(rid, "parser functions scanned: %d, with a `k` tag: %d (the mnemonic `brk` was counted)" % (n, sites))
+
+
 def run(ctx):
     fx = ctx.facts
     T = taint.Taint(fx, "USERINT", source_calls=USERINT_SOURCES, source_fields=USERINT_FIELDS, carrier=taint.INT_CARRIER)
@@ -593,6 +637,7 @@ def run(ctx):
     r61(ctx, fx, T, scope)
     r62(ctx, fx, T, scope)
     r68(ctx, fx, scope)
+    r612(ctx, fx)
     r69(ctx, fx)
     r611(ctx, fx)
     r610(ctx, fx, scope)
